@@ -218,4 +218,262 @@ theorem veq_deliverAll {w : World} (hn : NodupK w) (p c seq : Nat) (slots : List
       have h1 := veq_deliverTo hn p s c seq
       exact h1.trans (ih (hn.of_veq h1) _)
 
+/-! ### PART 2 — the API operations on publishers preserve `XInv` -/
+
+/-- the exemption of `p` can be dropped when the entries of `p` are good -/
+theorem xinvE_unexemptP {es : Option Nat} {w : World} {p : Nat} (h : XInvE (some p) es w)
+    (hg : ∀ e ∈ w.pubs, e.1 = p → GoodP e.2) : XInvE none es w := by
+  refine ⟨h.nodup, ?_, h.subs⟩
+  intro e he _
+  by_cases hp : e.1 = p
+  · exact hg e he hp
+  · exact h.pubs e he (fun hh => hp (Option.some.inj hh))
+
+/-- writing a good publisher repairs the exempted publisher -/
+theorem xinvE_setP_repair {es : Option Nat} {w : World} {p : Nat} (h : XInvE (some p) es w)
+    (X : Pub) (hg : GoodP X) : XInvE none es (setP w p X) := by
+  apply xinvE_unexemptP (h.setP p X (fun hh => absurd rfl hh))
+  intro e he hp
+  rcases mem_setP he with rfl | ⟨_, h2⟩
+  · exact hg
+  · exact absurd hp h2
+
+theorem not_mem_of_getP_none {w : World} {p : Nat} (h : getP w p = none) :
+    ∀ e ∈ w.pubs, e.1 ≠ p := by
+  intro e he hp
+  unfold getP at h
+  simp only [Option.map_eq_none_iff, List.find?_eq_none] at h
+  have := h e he
+  simp at this
+  exact this hp
+
+/-- `pubDestroyIfUnreferenced` repairs the exempted publisher -/
+theorem xinv_pubDestroy {es : Option Nat} {w : World} {p : Nat} (h : XInvE (some p) es w) :
+    XInvE none es (pubDestroyIfUnreferenced w p) := by
+  simp only [pubDestroyIfUnreferenced]
+  cases hP : getP w p with
+  | none =>
+    simp only []
+    apply xinvE_unexemptP h
+    intro e he hp
+    exact absurd hp (not_mem_of_getP_none hP e he)
+  | some P =>
+    simp only []
+    split
+    · rename_i hc
+      apply xinvE_unexemptP h
+      intro e he hp
+      have he' : e = (p, e.2) := by rw [← hp]
+      rw [he'] at he
+      rw [assoc_unique h.nodup.pubs he (mem_of_getP hP)]
+      intro hex
+      by_cases ha : P.alive = true
+      · exact Or.inl ha
+      · right
+        intro hl
+        simp [hl, hex, ha] at hc
+    · have h1 := h.of_veq (veq_pubDestroySlots w p P.conns)
+      exact xinvE_setP_repair h1 _ (fun hex => Bool.noConfusion hex)
+
+theorem xstep_loan {w : World} (h : XInv w) (p l : Nat) : XInv (step w (.loan p l)).1 := by
+  simp only [step]
+  cases hP0 : getP w p with
+  | none => exact h
+  | some P0 =>
+    simp only []
+    split
+    · exact h
+    · split
+      · exact h
+      · have h1 := h.of_veq (veq_retrieveReturned h.nodup p)
+        cases hP : getP (retrieveReturned w p) p with
+        | none => exact h1
+        | some P =>
+          simp only []
+          split
+          · exact h1
+          · split
+            · exact h1
+            · rename_i c rest hf
+              split
+              · exact h1.of_veq (veq_panic _)
+              · exact ((h1.toE none none).setP p _ (fun _ _ => Or.inr (by simp))).toX
+
+theorem xstep_dloan {w : World} (h : XInv w) (p l : Nat) : XInv (step w (.dloan p l)).1 := by
+  simp only [step]
+  cases hP : getP w p with
+  | none => exact h
+  | some P =>
+    simp only []
+    cases hl : P.loans.find? (fun x => decide (x.1 = l)) with
+    | none => exact h
+    | some x =>
+      obtain ⟨l', c⟩ := x
+      exact (xinv_pubDestroy
+        (((h.toE none none).exemptP p).setP p _ (fun hh => absurd rfl hh))).toX
+
+theorem xstep_dpub {w : World} (h : XInv w) (p : Nat) : XInv (step w (.dpub p)).1 := by
+  simp only [step]
+  cases hP : getP w p with
+  | none => exact h
+  | some P =>
+    simp only []
+    split
+    · exact h
+    · apply XInvE.toX
+      apply xinv_pubDestroy
+      exact (((h.toE none none).exemptP p).setP p { P with alive := false }
+        (fun hh => absurd rfl hh)).of_eq rfl rfl
+
+theorem pv_sendHist (h : Nat) (P : Pub) (c tag : Nat) : pv (sendHist h P c tag) = pv P := by
+  obtain ⟨e1, _, _, e4⟩ := sendHist_fields h P c tag
+  obtain ⟨a1, a2, _⟩ := ptop_eq e1
+  simp only [pv, a1, a2, e4]
+
+theorem veq_sendMid {w0 : World} (hn : NodupK w0) (p c tag : Nat) (a : Bool) :
+    VEq w0 (sendMid w0 p c tag a).1 := by
+  simp only [sendMid]
+  split
+  · exact VEq.refl _
+  · have h1 := veq_pubUpdate hn p
+    cases hP : getP (pubUpdate w0 p) p with
+    | none => exact h1
+    | some P =>
+      simp only []
+      have h2 := h1.trans (veq_setP (hn.of_veq h1) hP
+        (X := sendHist (pubUpdate w0 p).cfg.hist P c tag) (pv_sendHist _ _ _ _))
+      have h3 := h2.trans (veq_retrieveReturned (hn.of_veq h2) p)
+      exact h3.trans (veq_deliverAll (hn.of_veq h3) p c P.seq _ 0)
+
+theorem xstep_send {w : World} (h : XInv w) (p l tag : Nat) : XInv (step w (.send p l tag)).1 := by
+  cases hP0 : getP w p with
+  | none => simp only [step, hP0]; exact h
+  | some P0 =>
+    cases hl : P0.loans.find? (fun x => decide (x.1 = l)) with
+    | none => simp only [step, hP0, hl]; exact h
+    | some x =>
+      obtain ⟨l', c⟩ := x
+      rw [step_send_eq hP0 hl]
+      apply XInvE.toX
+      apply xinv_pubDestroy
+      have h0 := ((h.toE none none).exemptP p).setP p
+        { P0 with payload := P0.payload.set c tag,
+                  loans := P0.loans.filter (fun x => decide (x.1 ≠ l)) } (fun hh => absurd rfl hh)
+      have h1 := h0.of_veq (veq_sendMid h0.nodup p c tag P0.alive)
+      split
+      · exact h1.setP p _ (fun hh => absurd rfl hh)
+      · exact h1
+
+theorem pv_probeLoans (P : Pub) (fuel : Nat) (acc : List Nat) :
+    pv (probeLoans P fuel acc).1 = pv P := by
+  induction fuel generalizing P acc with
+  | zero => rfl
+  | succ k ih =>
+    simp only [probeLoans]
+    split
+    · rfl
+    · split
+      · rfl
+      · rw [ih]; rfl
+
+theorem pv_probeRelease (l : List Nat) (P : Pub) :
+    pv (l.foldl (fun (P : Pub) c => { P.releaseChunk c with loanCnt := P.loanCnt - 1 }) P) = pv P := by
+  induction l generalizing P with
+  | nil => rfl
+  | cons c r ih =>
+    simp only [List.foldl_cons]
+    rw [ih]
+    exact pv_releaseChunk P c
+
+theorem xstep_probe {w : World} (h : XInv w) (p : Nat) : XInv (step w (.probe p)).1 := by
+  simp only [step]
+  cases hP0 : getP w p with
+  | none => exact h
+  | some P0 =>
+    simp only []
+    split
+    · exact h
+    · have h1 := h.of_veq (veq_retrieveReturned h.nodup p)
+      cases hP : getP (retrieveReturned w p) p with
+      | none => exact h1
+      | some P =>
+        simp only []
+        have e1 := pv_probeLoans P (P.n + 1) []
+        generalize probeLoans P (P.n + 1) [] = x at e1
+        obtain ⟨P', taken, why⟩ := x
+        simp only []
+        exact h1.of_veq (veq_setP h1.nodup hP ((pv_probeRelease taken P').trans e1))
+
+theorem xinv_finishPanic {w0 : World} {r : World × String} (h0 : XInv w0) (hr : XInv r.1) :
+    XInv (finishPanic w0 r).1 := by
+  unfold finishPanic
+  split
+  · exact h0.of_veq (veq_panic _)
+  · exact hr
+
+theorem xstep_updP {w : World} (h : XInv w) (p : Nat) : XInv (step w (.updP p)).1 := by
+  simp only [step]
+  cases hP : getP w p with
+  | none => exact h
+  | some P =>
+    simp only []
+    split
+    · exact h
+    · exact xinv_finishPanic h (h.of_veq (veq_pubUpdate h.nodup p))
+
+theorem xinv_filterP {w : World} (h : XInv w) (f : Nat × Pub → Bool) :
+    XInv { w with pubs := w.pubs.filter f } := by
+  refine ⟨⟨?_, h.nodup.subs⟩, fun e he => h.pubs e (List.mem_filter.mp he).1, h.subs⟩
+  exact List.Pairwise.sublist (List.Sublist.map _ List.filter_sublist) h.nodup.pubs
+
+theorem xinv_appendP {w : World} (h : XInv w) {p : Nat} (hnone : getP w p = none) (X : Pub)
+    (hg : GoodP X) : XInv { w with pubs := w.pubs ++ [(p, X)] } := by
+  refine ⟨⟨?_, h.nodup.subs⟩, ?_, h.subs⟩
+  · simp only [List.map_append, List.map_cons, List.map_nil]
+    rw [List.nodup_append]
+    refine ⟨h.nodup.pubs, by simp, ?_⟩
+    intro a ha b hb
+    simp only [List.mem_singleton] at hb
+    subst hb
+    obtain ⟨e, he, rfl⟩ := List.mem_map.mp ha
+    exact not_mem_of_getP_none hnone e he
+  · intro e he
+    rcases List.mem_append.mp he with he | he
+    · exact h.pubs e he
+    · simp only [List.mem_singleton] at he
+      subst he; exact hg
+
+theorem xstep_cpub {w : World} (h : XInv w) (p ml : Nat) : XInv (step w (.cpub p ml)).1 := by
+  simp only [step]
+  split
+  · exact h
+  · rename_i hnone
+    have hnone' : getP w p = none := by
+      cases hq : getP w p with
+      | none => rfl
+      | some x => rw [hq] at hnone; simp at hnone
+    have h0 := xinv_appendP h hnone' ({
+        maxLoans := ml, n := w.cfg.nChunks ml,
+        free := List.range (w.cfg.nChunks ml), rc := List.replicate (w.cfg.nChunks ml) 0,
+        conns := List.replicate w.cfg.maxSubs none, snapCtr := w.subReg.counter,
+        snap := w.subReg.slots, payload := List.replicate (w.cfg.nChunks ml) 0,
+        chunkSeq := List.replicate (w.cfg.nChunks ml) 0 } : Pub) (fun _ => Or.inl rfl)
+    have h1 := h0.of_veq (veq_pubForceUpdate h0.nodup p)
+    generalize pubForceUpdate _ p = w1 at h1 ⊢
+    cases hP1 : getP w1 p with
+    | none =>
+      split
+      · rename_i hh; cases hh
+      · apply xinv_finishPanic h
+        exact xinv_filterP h1 _
+    | some P1 =>
+      split
+      · rename_i reg slot P1' hadd hP1'
+        cases hP1'
+        apply xinv_finishPanic h
+        exact (h1.of_veq (veq_setP h1.nodup hP1 (X := { P1 with slot := slot }) rfl)).of_veq
+          (VEq.of_eq rfl rfl)
+      · apply xinv_finishPanic h
+        exact xinv_filterP (h1.of_veq (veq_pubDestroySlots w1 p P1.conns)) _
+
 end Iox2.PubSub.C17P
